@@ -56,6 +56,15 @@ def run(tier):
         b, info = behav.relayclient(wd, nr, lmtp, pipe, False)
         sets.append({'nr': nr, 'lmtp': lmtp, 'pipe': pipe, 'behaviours': b})
         infos.append(info)
+    # ... and of its handshake: immediate TLS / STARTTLS required or merely offered / credentials with and without AUTH on offer
+    HS = [dict(tls='req', peertls=True, creds=True, peerauth=True), dict(tls='imm', creds=True, peerauth=True),
+          dict(tls='off', peertls=True, creds=True, peerauth=False), dict(tls='req', peertls=False), dict(tls='off', peertls=True)]
+    hs_sets = ([(1, False, True, HS[0]), (1, True, True, HS[1]), (1, False, True, HS[2]), (1, True, True, HS[3]), (1, True, False, HS[4])] if q else
+               [(1, lm, pp, h) for h in HS for lm in (False, True) for pp in (False, True)] + [(2, False, True, HS[0]), (2, True, True, HS[1])])
+    for nr, lmtp, pipe, hs in hs_sets:
+        b, info = behav.relayclient(wd, nr, lmtp, pipe, False, hs=hs)
+        sets.append({'nr': nr, 'lmtp': lmtp, 'pipe': pipe, 'behaviours': b, 'hs': hs})
+        infos.append(info)
     behfile = os.path.join(wd, 'relayclient_behaviours.json')
     behav.save(behfile, sets)
     PR_CFG = """SPECIFICATION Spec
@@ -86,17 +95,21 @@ CHECK_DEADLOCK FALSE
         level='model_checking',
         rule='downstream scripts for the real StaticSmtpRelay and StaticLmtpRelay: a deviating reply class {4xx, 5xx, '
              'malformed, disconnect} at every single stage (banner, EHLO incl. 500->HELO fallback, MAIL, each RCPT, DATA, '
-             'end-of-data per recipient for LMTP, RSET, QUIT), pairs of deviating stages, the full product of RCPT (and LMTP '
+             'end-of-data per recipient for LMTP, RSET, QUIT; STARTTLS and AUTH refused or answered oddly, the TLS handshake '
+             'failing or stalling, AUTH not on offer), pairs of deviating stages, the full product of RCPT (and LMTP '
              'end-of-data) classes; 1-3 recipients; envelopes that list an address twice (every copy answered alike); PIPELINING '
              'on/off; model replay: every complete behaviour of spec/RelayClient.tla (TLC enumerates every answer {2xx, 4xx, 5xx, '
              '500, garbage, disconnect, silence} at every reply the client waits for, connect to QUIT, 1-2 (thorough 3) recipients, '
-             'SMTP/LMTP, PIPELINING on/off) replayed against the real relay, which must also hold the same conversation and '
+             'SMTP/LMTP, PIPELINING on/off; handshake configurations: TLS immediately / required / offered, credentials with and '
+             'without AUTH on offer, incl. a second EHLO answered 500, a 2xx to STARTTLS that is not 220, a failed or stalled TLS handshake) replayed against the real relay, which must also hold the same conversation and '
              'return the same result (reported as DRIFT_*); non-trivial = at least one downstream failure event',
         trigger=lambda tr: any(e['t'] == 'peer' and (e['act'] != 'code' or e['code'] >= 400) for e in tr['ev']),
         assumptions=['when a conversation contains several failure events of different stages the result may carry the class of '
                      'any of them (DESIGN.md section 5, C11); delivered => accepted is strict, and so is the class of each '
                      'recipient when nothing but RCPT refusals went wrong (C11_OwnClass)',
-                     'the downstream is an in-memory scripted peer handed out by socket_creator'],
+                     'the downstream is an in-memory scripted peer handed out by socket_creator; the TLS layer of the handshake '
+                     'replay is the scripted context object given to the relay (`context=`): a failed handshake takes the socket with '
+                     'it, as measured with a real gevent SSL handshake against an untrusted certificate (real handshakes: C08, C14)'],
         trusted=['TLC 1.8', 'CommunityModules Json/IOUtils', 'harness/rdrv.py (scripted downstream)', 'harness/vt.py'],
         wd=wd, clause_filter=lambda c: c.startswith('C11_'))
 
